@@ -419,6 +419,19 @@ pub fn plan(rng: &mut Rng, scale: u64, thorough: bool, repo: &str, hist: &mut Hi
             specs.push(format!("{}:{}", kind, rng.next() >> 20));
         }
     }
+    // preprocessor-grammar programs (several files + their own API defines) and their token-level mutations
+    for (kind, n) in [("pp", 260u64), ("ppmut", 120)] {
+        for _ in 0..per(n) {
+            let seed = rng.next() >> 20;
+            let p = if kind == "pp" { gen_pp(&mut Rng::new(seed)) } else { gen_pp_mutated(&mut Rng::new(seed)) };
+            for c in &p.cats {
+                hist.add(&format!("cat/pp/{}", c));
+            }
+            hist.add(&format!("pp-files={}", p.files.len()));
+            hist.add(&format!("pp-defines={}", p.defines.len().min(3)));
+            specs.push(format!("{}:{}", kind, seed));
+        }
+    }
     let corpus = repo_corpus(repo);
     hist.add(&format!("repo-corpus-files={}", corpus.len()));
     for (i, (root, entry)) in corpus.iter().enumerate() {
@@ -434,6 +447,8 @@ pub fn plan(rng: &mut Rng, scale: u64, thorough: bool, repo: &str, hist: &mut Hi
     for spec in specs {
         let names = super::materialise(&spec).map(|m| pipeline_names(&m.bytes)).unwrap_or_default();
         let heavy = spec.starts_with("repo:") || spec.starts_with("rmut:");
+        // the preprocessor does not depend on the target beyond RSSL_TARGET_*: one HLSL flavour + Metal in quick
+        let two_targets = heavy || spec.starts_with("pp:") || spec.starts_with("ppmut:");
         let defs: Vec<(String, String)> = if rng.chance(1, 5) {
             let (n, v) = *rng.pick(API_DEFINES);
             vec![(n.to_string(), v.to_string())]
@@ -451,7 +466,7 @@ pub fn plan(rng: &mut Rng, scale: u64, thorough: bool, repo: &str, hist: &mut Hi
             }
             continue;
         }
-        let targets: Vec<Tgt> = if heavy && !thorough { vec![*rng.pick(&[Tgt::Dx, Tgt::Vk, Tgt::VkBa]), Tgt::Msl] } else { ALL_TARGETS.to_vec() };
+        let targets: Vec<Tgt> = if two_targets && !thorough { vec![*rng.pick(&[Tgt::Dx, Tgt::Vk, Tgt::VkBa]), Tgt::Msl] } else { ALL_TARGETS.to_vec() };
         for tgt in targets {
             let mode = if heavy && names.is_empty() { if rng.chance(3, 4) { Mode::NoPipeline } else { pick_mode(rng, &names) } } else { pick_mode(rng, &names) };
             reqs.push(Req { tgt, mode, layout: rng.chance(1, 2), defs: defs.clone(), input: spec.clone() });
@@ -467,3 +482,4 @@ fn pick_mode_named(rng: &mut Rng, names: &[String]) -> Mode {
 // ------------------------------------------------------------------------------------------ grammar
 
 include!("c08_grammar.rs");
+include!("c08_pp.rs");
